@@ -33,18 +33,32 @@ DocBounds ==
     hsv      |-> << Free, Unit, Unit >>,
     hwb      |-> << Free, Unit, Unit >>,
     linluma  |-> << Unit >>,
-    srgbluma |-> << Unit >> ]
+    srgbluma |-> << Unit >>,
+    \* the universe of the other RGB standards and white points (harness binaries convstd*):
+    \* D50 (ASTM E308): X = 0.96422, Z = 0.82521; DCI white x = 0.314, y = 0.351: X = 0.89459, Z = 0.95442
+    adobe |-> << Unit, Unit, Unit >>, linadobe |-> << Unit, Unit, Unit >>,
+    p3 |-> << Unit, Unit, Unit >>, linp3 |-> << Unit, Unit, Unit >>,
+    rec2020 |-> << Unit, Unit, Unit >>, linrec2020 |-> << Unit, Unit, Unit >>, rec709 |-> << Unit, Unit, Unit >>,
+    hsv_adobe |-> << Free, Unit, Unit >>, hsl_p3 |-> << Free, Unit, Unit >>, hwb_rec2020 |-> << Free, Unit, Unit >>,
+    xyz50    |-> << <<Q(0, 1), Q(96422, 100000)>>, Unit, <<Q(0, 1), Q(82521, 100000)>> >>,
+    lab50    |-> << <<Q(0, 1), Q(100, 1)>>, <<Q(-128, 1), Q(127, 1)>>, <<Q(-128, 1), Q(127, 1)>> >>,
+    lch50    |-> << <<Q(0, 1), Q(100, 1)>>, <<Q(0, 1), Q(128, 1)>>, Free >>,
+    luv50    |-> << <<Q(0, 1), Q(100, 1)>>, <<Q(-84, 1), Q(176, 1)>>, <<Q(-135, 1), Q(108, 1)>> >>,
+    prophoto |-> << Unit, Unit, Unit >>, linprophoto |-> << Unit, Unit, Unit >>, hsv_prophoto |-> << Free, Unit, Unit >>,
+    xyzdci   |-> << <<Q(0, 1), Q(89459, 100000)>>, Unit, <<Q(0, 1), Q(95442, 100000)>> >>,
+    labdci   |-> << <<Q(0, 1), Q(100, 1)>>, <<Q(-128, 1), Q(127, 1)>>, <<Q(-128, 1), Q(127, 1)>> >>,
+    dcip3 |-> << Unit, Unit, Unit >>, lindcip3 |-> << Unit, Unit, Unit >> ]
 
 NodeNames == DOMAIN DocBounds
 NComp(node) == Len(DocBounds[node])
 (* index of the hue component, 0 if none *)
-HueIdx(node) == CASE node \in {"lch", "lchuv", "oklch"} -> 3
-                  [] node \in {"hsluv", "okhsl", "okhsv", "okhwb", "hsl", "hsv", "hwb"} -> 1
+HueIdx(node) == CASE node \in {"lch", "lchuv", "oklch", "lch50"} -> 3
+                  [] node \in {"hsluv", "okhsl", "okhsv", "okhwb", "hsl", "hsv", "hwb", "hsv_adobe", "hsl_p3", "hwb_rec2020", "hsv_prophoto"} -> 1
                   [] OTHER -> 0
 
 (* Upper bounds that the documentation gives as guidance only and that the type's contract does not
    enforce: Lch::max_chroma ("does not cover the entire colour space, but covers enough to be practical"). *)
-AdvisoryUpper == { <<"lch", 2>> }
+AdvisoryUpper == { <<"lch", 2>>, <<"lch50", 2>> }
 (* Documented slack above an upper bound: Okhsv accepts saturation and value up to 1 + 1e-6, "the maximum
    inaccuracy of the sRGB gamut boundary computation" (ok_utils::MAX_SRGB_SATURATION_INACCURACY).
    As a power of two not below it: 2^-19 > 1e-6 (and covers f32 rounding of the sum). *)
